@@ -12,6 +12,8 @@ use trv_core::seq::{self, SeqOut, SeqScenario};
 use trv_core::svcx::{self, Action, Opts, Scenario, Viol};
 use trv_core::world::{drive_ready, CallerFut, Outcome, Phase, World};
 
+mod threads;
+
 trv_core::install_clock_seam!();
 
 const Q: u64 = 10;
@@ -776,6 +778,23 @@ fn main() {
     }
     if let Some(p) = cli.replay {
         let v = trv_core::load_replay(&p);
+        if let Some(ch) = v["history"]["thread_schedule"].as_array() {
+            let choices: Vec<usize> = ch.iter().filter_map(|x| x.as_u64().map(|u| u as usize)).collect();
+            match threads::replay(v["config"].as_str().unwrap_or(""), &choices, v["kind"].as_str().unwrap_or("")) {
+                Some(true) => {
+                    println!("VIOLATION property=C10 replay={p}");
+                    std::process::exit(1);
+                }
+                Some(false) => {
+                    println!("replay: the recorded violation does not occur on the current tree");
+                    std::process::exit(0);
+                }
+                None => {
+                    eprintln!("MACHINERY no thread configuration with that label");
+                    std::process::exit(2);
+                }
+            }
+        }
         if v["config"].as_str().unwrap_or("").starts_with("cache concurrent") {
             let mut c = conc_configs(Tier::Quick);
             c.extend(conc_configs(Tier::Thorough));
@@ -818,5 +837,10 @@ fn main() {
         let opts = Opts { max_depth: tier.pick(10, 13), time_cap: Duration::from_secs(tier.pick(30, 600)), ..Opts::default() };
         svcx::explore(&cfg, &opts, &mut rep);
     }
+    // thread level: all interleavings of the store's critical sections
+    threads::run(tier, &mut rep);
+    rep.require_witness("thread_schedules_with_preemption");
+    rep.require_witness("thread_lookup_hit");
+    rep.assumptions.push("thread level (engine B): scheduling points are the lock acquisitions of the cache store (repo feature verif-hooks); sequentially consistent memory; the inner service answers at once".into());
     trv_core::finish(rep);
 }
